@@ -56,6 +56,9 @@ func checkC18(p *Prog, r *Report) {
 	} else {
 		r.Fail(kp("LIN", "compkey.Decode#anchor"), "anchor", compkeyPkg, "Decode not found")
 	}
+	// ---- D2d: the genesis import stores every entry under the key its string form decodes to, untransformed (no recomputation by
+	// string prefixes of the key strings)
+	aolRules(p, r, "C18", func(tag string) bool { return tag == "genesis" })
 	// ---- D2c: prefix-exact listings: a listing iterates under PartialEncode of exactly the components that name its parent -----
 	aolListings(p, r, buildAolModel(p), "C18")
 	// ---- D3: typed keys ------------------------------------------------------------------------
@@ -178,6 +181,12 @@ func checkC18(p *Prog, r *Report) {
 			}
 			r.Check(hit != nil && okSep, kp("AGREE", "compkey."+name+"#"+want+"(·, sep)"), "the string form joins / splits the components with exactly the separator handed in", p.FnPos(fn),
 				want+" with the separator parameter", name+" does not call "+want+" with its separator parameter")
+			// … and what is split is the encoded string itself: a case fold, a trim or any other rewrite before the split changes
+			// components the typed key compares byte for byte (two topic names that differ in case become one key)
+			if name == "DecodeFromString" && hit != nil {
+				r.Check(hit.Common().Args[0] == ssa.Value(fn.Params[0]), kp("ORIGIN", "compkey.DecodeFromString#splits-the-encoded-string-itself"), "the decoder splits the string it was given, untransformed", p.Pos(hit.Pos()),
+					"strings.Split(encoded, sep)", "the string handed to strings.Split is not the encoded parameter itself (it was rewritten first): components that differ only in what the rewrite folds decode to the same key")
+			}
 		}
 	}
 }
